@@ -27,9 +27,18 @@ type c02Case struct {
 	// context: "live" (cancelled when the call ends) or "expired" (already past
 	// its deadline when the call starts — a stream then runs no turn). "" = no hook.
 	HookCtx string `json:"hook_ctx,omitempty"`
+	// Lockstep: the client sends one call, waits for all of its response
+	// streams, and only then sends the next (transports with a real
+	// connection only). A server that holds a response back until more input
+	// or EOF arrives fails here.
+	Lockstep bool `json:"lockstep,omitempty"`
 }
 
 // ctxHook is a dispatch hook that derives a per-call context.
+// lockWant is the number of response streams owed per call in a lockstep run
+// (set by runC02 before serveOver; the check runs cases one at a time).
+var lockWant []int
+
 type ctxHook struct{ expired bool }
 
 func (h ctxHook) OnDispatchStart(ctx context.Context, _ vgirpc.DispatchInfo) (context.Context, vgirpc.HookToken) {
@@ -63,6 +72,9 @@ func genC02(t *rapid.T) c02Case {
 	c := c02Case{Transport: "mem"}
 	if os.Getenv("VERIF_TIER") == "thorough" {
 		c.Transport = []string{"mem", "mem", "netpipe", "unix", "tcp"}[rapid.IntRange(0, 4).Draw(t, "transport")]
+		c.Lockstep = c.Transport != "mem" && rapid.Bool().Draw(t, "lockstep")
+	} else if rapid.IntRange(0, 9).Draw(t, "quick-lockstep") == 0 {
+		c.Transport, c.Lockstep = "netpipe", true
 	}
 	if rapid.IntRange(0, 3).Draw(t, "versioned") == 0 {
 		c.Version = "2.3.4"
@@ -110,9 +122,15 @@ func expectedStreams(c lib.CallSpec, serverVersion string) int {
 	return c.ExpectedStreams()
 }
 
-func serveOver(transport string, srv *vgirpc.Server, input []byte) (lib.PipeResult, error) {
+// serveOver plays input against srv over the transport. With segs (the input
+// cut per call) and want (response streams owed per call) it plays lockstep.
+func serveOver(transport string, srv *vgirpc.Server, input []byte, lock ...[][]byte) (lib.PipeResult, error) {
 	if transport == "mem" {
 		return lib.RunPipe(srv, input), nil
+	}
+	var segs [][]byte
+	if len(lock) > 0 {
+		segs = lock[0]
 	}
 	var cliConn, srvConn net.Conn
 	switch transport {
@@ -175,7 +193,30 @@ func serveOver(transport string, srv *vgirpc.Server, input []byte) (lib.PipeResu
 			}
 		}
 	}()
-	if _, err := cliConn.Write(input); err != nil {
+	if segs != nil {
+		// lockstep: after each call's bytes, wait until its responses are in
+		owed := 0
+		for i, seg := range segs {
+			if _, err := cliConn.Write(seg); err != nil {
+				return res, fmt.Errorf("client write (call %d): %w", i, err)
+			}
+			owed += lockWant[i]
+			deadline := time.Now().Add(20 * time.Second)
+			for {
+				outMu.Lock()
+				got, _ := lib.SplitStreams(append([]byte{}, out.Bytes()...))
+				outMu.Unlock()
+				if len(got) >= owed {
+					break
+				}
+				if time.Now().After(deadline) {
+					cliConn.Close()
+					return res, fmt.Errorf("lockstep: %d response streams owed after call %d, %d arrived within 20 s although the client sent nothing further", owed, i, len(got))
+				}
+				time.Sleep(200 * time.Microsecond)
+			}
+		}
+	} else if _, err := cliConn.Write(input); err != nil {
 		return res, fmt.Errorf("client write: %w", err)
 	}
 	// half-close so the server sees EOF after the pre-written history
@@ -222,10 +263,12 @@ func runC02(c c02Case) (out lib.Outcome) {
 	var input bytes.Buffer
 	expected := make([]int, len(calls))
 	failedBefore, laterAfterFail := false, false
+	var segs [][]byte
 	for i, call := range calls {
 		req, in := call.PipeBytes()
 		input.Write(req)
 		input.Write(in)
+		segs = append(segs, append(append([]byte{}, req...), in...))
 		expected[i] = expectedStreams(call, c.Version)
 		out.Label("call:" + call.Kind)
 		if call.BadParams != "" {
@@ -244,7 +287,15 @@ func runC02(c c02Case) (out lib.Outcome) {
 	if laterAfterFail {
 		out.Label("fail-then-later-call")
 	}
-	res, terr := serveOver(c.Transport, newScriptedServer(c.Version, c.HookCtx), input.Bytes())
+	var res lib.PipeResult
+	var terr error
+	if c.Lockstep && c.Transport != "mem" {
+		out.Label("lockstep")
+		lockWant = expected
+		res, terr = serveOver(c.Transport, newScriptedServer(c.Version, c.HookCtx), input.Bytes(), segs)
+	} else {
+		res, terr = serveOver(c.Transport, newScriptedServer(c.Version, c.HookCtx), input.Bytes())
+	}
 	if terr != nil {
 		out.Violate("C02/serve-did-not-finish", "%v", terr)
 		return
@@ -348,7 +399,7 @@ var propC02 = lib.Prop[c02Case]{
 		"followed by a sentinel call; oracle: exactly the modelled number of response streams, each group byte-identical to the same call on a fresh connection, all input consumed, sentinel answered. Non-trivial: a failing call followed by a later call.",
 	Gen:          genC02,
 	Run:          runC02,
-	Essential:    []string{"fail-then-later-call", "call:stream", "call:unary", "badparams:stream", "call:nomethod"},
+	Essential:    []string{"lockstep", "hook-ctx:expired", "fail-then-later-call", "call:stream", "call:unary", "badparams:stream", "call:nomethod"},
 	EssentialMin: 200,
 	Assumptions:  []string{"the client pre-writes each stream call's complete input stream (the documented 'writes before reading' client)"},
 }
